@@ -512,9 +512,10 @@ class Bits:
             # Evaluate each item as True or False and set bits to 1 or 0.
             self._setbin_unsafe(''.join(str(int(bool(x))) for x in s))
         elif isinstance(s, numbers.Integral):
+            # The integer itself isn't put in the message: converting a huge one to text can itself fail.
             raise TypeError(f"It's no longer possible to auto initialise a bitstring from an integer."
-                            f" Use '{self.__class__.__name__}({s})' instead of just '{s}' as this makes it "
-                            f"clearer that a bitstring of {int(s)} zero bits will be created.")
+                            f" Use '{self.__class__.__name__}(n)' instead of just 'n' as this makes it "
+                            f"clearer that a bitstring of n zero bits will be created.")
         else:
             raise TypeError(f"Cannot initialise bitstring from type '{type(s)}'.")
 
